@@ -15,7 +15,7 @@ func runC06(c *Ctx) {
 	R.Rule("C06.R1", "escaped provenance: in the Text arm every write is token.String() of the current token (html.EscapeString of the decoded text) unless it happens under allowUnsafe; no other value is ever written for a text token")
 	R.Rule("C06.R2", "exactly-once: along every path through one iteration of the token loop at most one payload (token.String()/raw) and at most one space is written and never both; a Text iteration that writes nothing is inside skipped content or inside script/style without allowUnsafe; a space is written only under addSpaces; with addSpaces on, outside skipped content, for a tag that is neither script/style nor a skip-set element, exactly one of {tag, space} is written (one space per removed tag, none per kept tag); Comment and Doctype iterations never write a space")
 	R.Rule("C06.R7", "the adapter for writers without WriteString writes the whole string (= C16.R5, cited): it returns the results of one Write([]byte(s)) unchanged — sanitize ignores the byte count, so a short write with a nil error silently cuts text")
-	if ad := c.P.Func("github.com/microcosm-cc/bluemonday", "(*asStringWriter).WriteString"); ad != nil {
+	if ad := adapterWriteString(c); ad != nil {
 		okA, whyA := forwardsWrite(ad)
 		R.Check(okA, "C06.R7", "adapter", "(*asStringWriter).WriteString", c.P.Pos(ad.Pos()), "returns the results of Write([]byte(s)) unchanged", whyA)
 	}
